@@ -3,6 +3,7 @@ set), moves keep the number of spins, reported energy = direct sum over edges an
 from checks import big_scale
 from checks import api_cov
 from checks import extra_c19unique
+from checks import pure_fns
 LEAN_TARGETS = ["QmcProps.C19", "drv_c19"]
 BINS = ["c19"]
 
@@ -53,6 +54,7 @@ RULE = ("graphs on 2..6 spins without self-loops: frustrated triangles, multi-ed
 
 
 def main(ck):
+    pure_fns.run(ck)   # source->Lean translation of graph.rs's pure arithmetic (group Classical), re-proved equal to QmcModel/Classical.lean
     if ck.lake_build(LEAN_TARGETS):
         ck.audit("QmcProps.C19", ["Qmc.C19." + t for t in THEOREMS])
     if ck.cargo_build(BINS):
